@@ -23,7 +23,7 @@ func c11Cfg(rng *rand.Rand, up4 bool, r int) hCfg {
 		GNBs:       []string{"198.18.0.10", "198.18.0.11"}, // shared on purpose
 		AppFilters: 3,                                      // shared on purpose
 		QFIs:       []uint8{1, 5, 9},
-		Mods:       []string{"upfar", "upqer", "cpseid", "upfar"},
+		Mods:       []string{"upfar", "upqer", "cpseid", "upfar", "uppdr-same"},
 	}
 	return c
 }
@@ -253,77 +253,100 @@ func c11NewPeers(res *vResult) {
 			res.inconclusive("agent start: " + err.Error())
 			return
 		}
-		peers := make([]*vPeer, npeers)
-		for i := range peers {
-			peers[i], _ = vNewPeer(vEnv.addr(40+i), a.opts.N4)
-		}
-		start := make(chan struct{})
-		var wg sync.WaitGroup
-		type outcome struct {
-			foreign  []string
-			accepted bool
-			tries    int
-		}
-		outs := make([]outcome, npeers)
-		for i, p := range peers {
-			wg.Add(1)
-			go func(i int, p *vPeer) {
-				defer wg.Done()
-				mine := map[uint32]bool{}
-				<-start
-				for try := 0; try < 12 && !outs[i].accepted; try++ {
-					seq := uint32(1000*(i+1) + try) // distinct per peer
-					mine[seq] = true
-					p.send(p.assocSetup(seq))
-					outs[i].tries++
-					deadline := time.Now().Add(250 * time.Millisecond)
-					for time.Now().Before(deadline) {
-						raw, ok := p.recvRaw(time.Until(deadline))
-						if !ok {
-							break
+		rounds := 4 + rng.Intn(5)
+		for round := 0; round < rounds && res.nViol() < 50; round++ {
+			peers := make([]*vPeer, npeers)
+			// peers may share a host address (several control-plane instances behind one address, distinct ports)
+			perHost := []int{1, 2, 4, npeers}[rng.Intn(4)]
+			for i := range peers {
+				peers[i], _ = vNewPeer(vEnv.addr(40+i/perHost), a.opts.N4)
+			}
+			start := make(chan struct{})
+			var wg sync.WaitGroup
+			type outcome struct {
+				foreign  []string
+				accepted bool
+				tries    int
+			}
+			outs := make([]outcome, npeers)
+			for i, p := range peers {
+				wg.Add(1)
+				go func(i int, p *vPeer) {
+					defer wg.Done()
+					mine := map[uint32]bool{}
+					<-start
+					for try := 0; try < 12 && !outs[i].accepted; try++ {
+						seq := uint32(1000*(i+1) + try) // distinct per peer
+						mine[seq] = true
+						p.send(p.assocSetup(seq))
+						outs[i].tries++
+						deadline := time.Now().Add(250 * time.Millisecond)
+						for time.Now().Before(deadline) {
+							raw, ok := p.recvRaw(time.Until(deadline))
+							if !ok {
+								break
+							}
+							m, err := messageParse(raw)
+							if err != nil {
+								continue
+							}
+							if !mine[m.Sequence()] {
+								outs[i].foreign = append(outs[i].foreign, fmt.Sprintf("%s seq=%d", m.MessageTypeName(), m.Sequence()))
+								continue
+							}
+							if vDecodeReply(m).Cause == 1 {
+								outs[i].accepted = true
+								break
+							}
 						}
-						m, err := messageParse(raw)
-						if err != nil {
-							continue
-						}
+					}
+					// a little more listening for stray responses
+					for _, m := range p.drain(30 * time.Millisecond) {
 						if !mine[m.Sequence()] {
 							outs[i].foreign = append(outs[i].foreign, fmt.Sprintf("%s seq=%d", m.MessageTypeName(), m.Sequence()))
-							continue
-						}
-						if vDecodeReply(m).Cause == 1 {
-							outs[i].accepted = true
-							break
 						}
 					}
+				}(i, p)
+			}
+			close(start)
+			wg.Wait()
+			res.eval(1)
+			res.event("simultaneous_new_peers", npeers)
+			retried := 0
+			for i, o := range outs {
+				if len(o.foreign) > 0 {
+					res.violate("C11.R5", "foreign-response", fmt.Sprintf("peer %d of %d simultaneously associating peers received a response to a request it never sent (%v): another peer's datagram was handled on this peer's association", i, npeers, o.foreign), map[string]interface{}{"peers": npeers})
 				}
-				// a little more listening for stray responses
-				for _, m := range p.drain(30 * time.Millisecond) {
-					if !mine[m.Sequence()] {
-						outs[i].foreign = append(outs[i].foreign, fmt.Sprintf("%s seq=%d", m.MessageTypeName(), m.Sequence()))
-					}
+				if !o.accepted {
+					res.violate("C11.R5", "association-never-set-up", fmt.Sprintf("peer %d of %d simultaneously associating peers got no accepted Association Setup Response within %d transmissions", i, npeers, o.tries), map[string]interface{}{"peers": npeers})
 				}
-			}(i, p)
-		}
-		close(start)
-		wg.Wait()
-		res.eval(1)
-		res.event("simultaneous_new_peers", npeers)
-		retried := 0
-		for i, o := range outs {
-			if len(o.foreign) > 0 {
-				res.violate("C11.R5", "foreign-response", fmt.Sprintf("peer %d of %d simultaneously associating peers received a response to a request it never sent (%v): another peer's datagram was handled on this peer's association", i, npeers, o.foreign), map[string]interface{}{"peers": npeers})
+				if o.tries > 1 {
+					retried++
+				}
 			}
-			if !o.accepted {
-				res.violate("C11.R5", "association-never-set-up", fmt.Sprintf("peer %d of %d simultaneously associating peers got no accepted Association Setup Response within %d transmissions", i, npeers, o.tries), map[string]interface{}{"peers": npeers})
+			res.event("first_datagrams_that_needed_a_retransmission", retried)
+			// every association must be this peer's own: an establishment under the peer's Node ID is accepted
+			for i, p := range peers {
+				if !outs[i].accepted {
+					continue
+				}
+				sq := uint32(500000 + 100*round + i)
+				est := c10Session(sq, uint64(0xC110000+idx%1000*4096+round*64+i), 30000+(ri%50)*600+round*40+i)
+				m := c01Request(p, p.establish(est), sq)
+				res.event("establishments_after_simultaneous_setup", 1)
+				if m == nil {
+					res.violate("C11.R5", "establishment-unanswered-after-setup", fmt.Sprintf("peer %d of %d (per host %d): the Session Establishment Request after its accepted Association Setup got no response", i, npeers, perHost), map[string]interface{}{"peers": npeers})
+				} else if c := vDecodeReply(m).Cause; c != 1 {
+					res.violate("C11.R5", fmt.Sprintf("establishment-rejected-after-setup cause=%d", c), fmt.Sprintf("peer %d of %d (per host %d): its association was set up, but its Session Establishment Request is rejected with cause %d: the association state was disturbed by another peer's datagram", i, npeers, perHost, c), map[string]interface{}{"peers": npeers})
+				} else {
+					c01Request(p, p.deletion(sq+50, c01UPSEID(m)), sq+50)
+				}
+				p.send(p.assocRelease(sq + 90))
 			}
-			if o.tries > 1 {
-				retried++
+			res.distinct(fmt.Sprintf("newpeers=%d/per-host=%d/retried=%d", npeers, perHost, retried))
+			for _, p := range peers {
+				p.close()
 			}
-		}
-		res.event("first_datagrams_that_needed_a_retransmission", retried)
-		res.distinct(fmt.Sprintf("newpeers=%d/retried=%d", npeers, retried))
-		for _, p := range peers {
-			p.close()
 		}
 		a.stop(vStopWatchdog)
 	}
